@@ -98,6 +98,34 @@ impl XGrantExec {
                     Err(e) => gerr_short(&e),
                 }
             }
+            // the same two through a real descriptor: the raw-fd helpers hand the guard's pointer to read(2) / write(2)
+            "g_read_from_fd" => {
+                use std::io::{Seek, SeekFrom, Write};
+                let srcb = bytes("src");
+                let path = format!("/tmp/vmh-xg-fd-{}", std::process::id());
+                let mut f = std::fs::OpenOptions::new().read(true).write(true).create(true).truncate(true).open(&path).expect("harness: file");
+                f.write_all(&srcb).unwrap();
+                f.seek(SeekFrom::Start(0)).unwrap();
+                let _ = std::fs::remove_file(&path);
+                match gm.read_volatile_from(ga("addr"), &mut f, g("count")) {
+                    Ok(n) => json!({"k": "ok", "n": n}),
+                    Err(e) => gerr_short(&e),
+                }
+            }
+            "g_write_to_fd" => {
+                use std::os::unix::fs::FileExt;
+                let path = format!("/tmp/vmh-xg-fd-{}", std::process::id());
+                let mut f = std::fs::OpenOptions::new().read(true).write(true).create(true).truncate(true).open(&path).expect("harness: file");
+                let _ = std::fs::remove_file(&path);
+                match gm.write_volatile_to(ga("addr"), &mut f, g("count")) {
+                    Ok(n) => {
+                        let mut sink = vec![0u8; f.metadata().unwrap().len() as usize];
+                        f.read_exact_at(&mut sink, 0).unwrap();
+                        json!({"k": "ok", "n": n, "data": sink})
+                    }
+                    Err(e) => gerr_short(&e),
+                }
+            }
             "g_store" => {
                 let b = bytes("buf");
                 with_atomic_ty!(b.len(), T, {
